@@ -226,6 +226,10 @@ def cases(tier):
     if tier == "quick":
         for l in (0, 1, 2):
             out.append(Kernel(l=l, K=1, M=1, orders=[[4, 0, 0], [0, 4, 0], [0, 0, 4], [4, 1, 0], [2, 0, 4]]))
+        # the top of the property's range (h and i shells) also in the quick tier, on a short order list
+        for l in (5, 6):
+            out.append(Kernel(l=l, K=1, M=1, orders=[[0, 0, 0], [1, 0, 0], [0, 2, 1], [3, 0, 0]]))
+            out.append(Kernel(l=l, K=1, M=1, orders=[[0, 0, 0], [0, 1, 0], [1, 0, 2]], backend="direct"))
     # generally contracted shells with exact zeros in the coefficient matrix
     for backend in ("general", "direct"):
         out.append(Kernel(l=1, K=3, M=2, orders=[[0, 0, 0], [1, 0, 0], [0, 2, 1]], zeros=[[0, 1], [2, 0]], backend=backend))
@@ -255,7 +259,7 @@ def cases(tier):
 def main(tier="quick", seed=0, only=None):
     cs = cm.parse_only(cases(tier), only)
     bounds = {
-        "angular_momenta": "l = 0..4 (quick) / 0..6 (thorough), every Cartesian component",
+        "angular_momenta": "l = 0..4 on every order triple and l = 5, 6 on short order lists (quick) / 0..6 (thorough), every Cartesian component",
         "orders": "every order triple with each order <= 3 (quick: 64) / <= 4 (thorough: 125), enumerated; direct back-end: all 27 triples with orders <= 2",
         "points": "symbolic points (1-2), plus points exactly on the centre, on the plane x = A_x and on the axis through the centre",
         "primitives": "K <= 2", "segments": "M <= 2", "transform": "symbolic rectangular T (2 x n, 3 x n, 7 x n)",
